@@ -60,7 +60,13 @@ type rscenario struct {
 	// ContErr k > 0: the k-th call of the OnContinuation callback returns an error.  The caller gets
 	// that error, gives the message up with Discard() and goes on with the next one.
 	ContErr int `json:"contErr"`
-	stream  []byte
+	// DiscardInvalid: after a Read has reported invalid UTF-8 the caller drops the rest of that message
+	// with Discard() and goes on reading (an application that tolerates bad text)
+	DiscardInvalid bool `json:"discardInvalid"`
+	// SkipEmptyMsg: an unfragmented data message without payload is neither read nor discarded before
+	// the next NextFrame (there is nothing to receive; the read helpers do the same)
+	SkipEmptyMsg bool `json:"skipEmptyMsg"`
+	stream       []byte
 }
 
 // fspec is what generators write; build() lays the frames out in a stream.
@@ -381,6 +387,10 @@ func runReader(sc *rscenario) (evs []interface{}) {
 			if sc.SkipEmptyCtl && hdr.OpCode.IsControl() && hdr.Length == 0 && sc.Entry == "reader" {
 				continue
 			}
+			if sc.SkipEmptyMsg && hdr.OpCode.IsData() && hdr.OpCode != ws.OpContinuation && hdr.Fin && hdr.Length == 0 && sc.Entry == "reader" {
+				frag = false
+				continue
+			}
 			if hdr.OpCode.IsData() {
 				frag = !hdr.Fin
 				if hdr.OpCode != ws.OpContinuation {
@@ -433,7 +443,7 @@ func runReader(sc *rscenario) (evs []interface{}) {
 				if err == io.EOF {
 					frag = false
 					stop = true
-				} else if err == errCallback {
+				} else if err == errCallback || (err == wsutil.ErrInvalidUTF8 && sc.DiscardInvalid) {
 					frag = false
 					if !giveUp() {
 						return evs
